@@ -162,7 +162,7 @@ impl Scenario for C14 {
                 v.push(Act::Refund { token, amt, by: 3, receiver: 3 });
             }
             for by in [4usize, 5] {
-                for amt in if self.thorough { vec![Amt::One, Amt::All] } else { vec![Amt::One] } {
+                for amt in if self.thorough { vec![Amt::One, Amt::All, Amt::Zero, Amt::Neg] } else { vec![Amt::One, Amt::Zero, Amt::Neg] } {
                     v.push(Act::Collect { token, amt, by, receiver: 0 });
                     v.push(Act::Refund { token, amt, by, receiver: 0 });
                     // paying out *to the collector* still needs the collector's own authorisation
